@@ -35,7 +35,12 @@ hx = C.hexs
 # ------------------------------------------------------------------ running the probe
 
 def build_probe(ctx, mode, release=False):
-    cmd = ["cargo", "build", "--offline", "-q", "--target-dir", os.path.join(NL, "target-" + mode)]
+    """mode: a key of MODES, optionally + "+noaux" = tiny-std features start,symbols without aux/vdso (own target dir)"""
+    tdir = os.path.join(NL, "target-" + mode.replace("+", "-"))
+    cmd = ["cargo", "build", "--offline", "-q", "--target-dir", tdir]
+    if mode.endswith("+noaux"):
+        cmd += ["--no-default-features", "--features", "noaux"]
+        mode = mode[:-6]
     if release:
         cmd.append("--release")
     rc, out = 1, ""
@@ -47,7 +52,7 @@ def build_probe(ctx, mode, release=False):
             break
     if rc != 0:
         return None, "\n".join([l for l in out.splitlines() if l.strip() and "warning" not in l][-25:])
-    return os.path.join(NL, "target-" + mode, "release" if release else "debug", "c07probe"), ""
+    return os.path.join(tdir, "release" if release else "debug", "c07probe"), ""
 
 
 _libc = None
@@ -321,19 +326,20 @@ def judge_run(case, rec, exe):
                 bad.append(("kernel", "auxv", "/proc/self/auxv differs from the auxv on the stack"))
         # aux getters
         a = rec["aux"]
-        if int(a[0]) != aux_last(iaux, 11) or int(a[0]) != os.getuid():
-            bad.append(("aux", "uid", "get_uid() = %s, AT_UID = %d, getuid() = %d" % (a[0], aux_last(iaux, 11), os.getuid())))
-        if int(a[1]) != aux_last(iaux, 13) or int(a[1]) != os.getgid():
-            bad.append(("aux", "gid", "get_gid() = %s, AT_GID = %d" % (a[1], aux_last(iaux, 13))))
-        ra = aux_last(iaux, 25)
-        rb = img[ra - sp:ra - sp + 16] if ra else None
-        if (a[2] == "none") != (rb is None) or (rb is not None and C.unhex(a[2]) != rb):
-            bad.append(("aux", "random", "get_random() is not the 16 bytes at AT_RANDOM"))
-        ea = aux_last(iaux, 31)
-        eb = img[ea - sp:img.index(b"\0", ea - sp)] if ea else None
-        exe_b = exe.encode()
-        if (a[3] == "none") != (eb is None) or (eb is not None and (C.unhex(a[3]) != eb or eb != exe_b)):
-            bad.append(("aux", "execfn", "get_exec_fn() is not the executed path"))
+        if a[0] != "na":               # "na": probe built without the aux feature, no getters to judge
+            if int(a[0]) != aux_last(iaux, 11) or int(a[0]) != os.getuid():
+                bad.append(("aux", "uid", "get_uid() = %s, AT_UID = %d, getuid() = %d" % (a[0], aux_last(iaux, 11), os.getuid())))
+            if int(a[1]) != aux_last(iaux, 13) or int(a[1]) != os.getgid():
+                bad.append(("aux", "gid", "get_gid() = %s, AT_GID = %d" % (a[1], aux_last(iaux, 13))))
+            ra = aux_last(iaux, 25)
+            rb = img[ra - sp:ra - sp + 16] if ra else None
+            if (a[2] == "none") != (rb is None) or (rb is not None and C.unhex(a[2]) != rb):
+                bad.append(("aux", "random", "get_random() is not the 16 bytes at AT_RANDOM"))
+            ea = aux_last(iaux, 31)
+            eb = img[ea - sp:img.index(b"\0", ea - sp)] if ea else None
+            exe_b = exe.encode()
+            if (a[3] == "none") != (eb is None) or (eb is not None and (C.unhex(a[3]) != eb or eb != exe_b)):
+                bad.append(("aux", "execfn", "get_exec_fn() is not the executed path"))
     # argument vector
     got_os = [C.unhex(x) for x in rec.get("args_os", [])]
     if got_os != exp_argv:
@@ -499,7 +505,7 @@ def run_mode(ctx, mode, release, cases, quick):
         if bad:
             report(ctx, tag, case, rec, bad, exe)
             ctx.hist("spec_failures", tag, len(bad))
-        if not rec["complete"] or "stack" not in rec or rec["sp"][0] == "none":
+        if not rec["complete"] or "stack" not in rec or rec["sp"][0] == "none" or rec["aux"][0] == "na":
             continue
         consts = " ".join(["consts"] + rec["consts"])
         lines.append("stack %s %s" % (rec["sp"][0], rec["stack"][0]))
@@ -754,6 +760,11 @@ def run(ctx):
     for mode in MODES:
         run_mode(ctx, mode, True, rel_cases, quick)
         reloc_and_clock(ctx, mode, True, quick)
+    # the start-up without aux values (features start + symbols only): its own `resolve`, judged against what was passed
+    for mode in (["static+noaux"] if quick else [m + "+noaux" for m in MODES]):
+        run_mode(ctx, mode, False, rel_cases if quick else cases, quick)
+        if not quick:
+            run_mode(ctx, mode, True, rel_cases, quick)
     # the release link without the probe's own strlen: recorded as an observation (DESIGN §4 #22)
     ctx.extra.setdefault("observations", {})["release_link_without_probe_strlen"] = \
         "fails with `undefined symbol: strlen` under rustc 1.95 (tried once when the probe was written); the release probe defines strlen itself"
@@ -768,7 +779,7 @@ def replay(ctx, rp):
     if "argv" not in r or any(x.startswith("len:") for x in r["argv"]):
         print("replay file carries no complete probe run")
         return 2
-    mode, rel = r["mode"].split("-")[0], r["mode"].endswith("release")
+    mode, rel = r["mode"].rsplit("-", 1)[0], r["mode"].endswith("release")
     exe, err = build_probe(ctx, mode, rel)
     if exe is None:
         print(err)
